@@ -163,6 +163,74 @@ Fixpoint has_slash (t : bytes) : bool :=
 Fixpoint after_slash (t : bytes) : option bytes :=
   match t with [] => None | c :: r => if c =? cSLASH then Some r else after_slash r end.
 
+(* the loop of case '*' that tries the rest of the pattern at successive text
+   positions: rec = dowild(p[pi:], -, flags); lit, pcf: the rest starts with the
+   literal byte pcf; litfail: what is returned when that literal cannot be
+   found ahead; skipped: the previous step was a fast-forward over a byte *)
+Fixpoint star_loop (rec : bytes -> wm) (match_slash lit cf : bool) (pcf : N) (litfail : wm)
+                   (skipped : bool) (t : bytes) {struct t} : wm :=
+  match t with
+  | [] => if skipped then litfail else WAbortAll
+  | c :: t' =>
+    let try (tch : N) : wm :=
+        let m := rec t in
+        if negb (wm_eqb m WNoMatch) then
+          if negb match_slash || negb (wm_eqb m WAbortStarStar) then m
+          else star_loop rec match_slash lit cf pcf litfail false t'
+        else if negb match_slash && (tch =? cSLASH) then WAbortStarStar
+        else star_loop rec match_slash lit cf pcf litfail false t' in
+    if lit then
+      if negb match_slash && (c =? cSLASH) then litfail
+      else if fold cf c =? pcf then try (fold cf c)
+      else star_loop rec match_slash lit cf pcf litfail true t'
+    else try c
+  end.
+
+(* case '*' of dowild; p1 = pattern after the first star, t = text[ti:].
+   rec = dowild(-, -, flags) on a shorter pattern (first argument: the look-behind
+   byte).  The three codes are what the Go port returns on its abort paths:
+   c_trail (trailing single star, a slash remains), c_noslash ("<star>/" and no
+   slash remains), c_lit ms (the literal after the star does not occur ahead). *)
+Definition star_case (rec : option N -> bytes -> bytes -> wm) (pn cf : bool)
+           (c_trail c_noslash : wm) (c_lit : bool -> wm)
+           (prev : option N) (p1 t : bytes) : wm :=
+  let p2 := drop_stars p1 in
+  let double := match p1 with c :: _ => c =? cSTAR | [] => false end in
+  let boundary :=
+      match prev with None => true | Some c => c =? cSLASH end &&
+      match p2 with
+      | [] => true
+      | c :: r => (c =? cSLASH) ||
+                  ((c =? cBSL) && match r with d :: _ => d =? cSLASH | [] => false end)
+      end in
+  (* the "<star><star>/" shortcut: try to match the rest after the slash against
+     the whole remaining text (WNoMatch here = shortcut not taken) *)
+  let shortcut : wm :=
+      if double && pn && boundary then
+        match p2 with
+        | c :: p3 => if c =? cSLASH then rec None p3 t else WNoMatch
+        | [] => WNoMatch
+        end
+      else WNoMatch in
+  match shortcut with
+  | WMatch => WMatch
+  | WFuel => WFuel
+  | _ =>
+    let match_slash := if double then negb pn || boundary else negb pn in
+    match p2 with
+    | [] => if negb match_slash && has_slash t then c_trail else WMatch
+    | q0 :: q1 =>
+      if negb match_slash && (q0 =? cSLASH) then
+        match after_slash t with
+        | None => c_noslash
+        | Some t' => rec (Some cSLASH) q1 t'
+        end
+      else
+        star_loop (rec None p2) match_slash (negb (is_glob_special q0)) cf (fold cf q0)
+                  (c_lit match_slash) false t
+    end
+  end.
+
 (* dowild.  [prev] is the pattern byte consumed just before p within the
    current Go invocation (None at its start): it stands for p[prevPi-2]. *)
 Fixpoint dowild (fuel : nat) (flags : N) (prev : option N) (p t : bytes) : wm :=
@@ -186,59 +254,8 @@ Fixpoint dowild (fuel : nat) (flags : N) (prev : option N) (p t : bytes) : wm :=
     else if pc =? cQM then
       if pn && (tc =? cSLASH) then WNoMatch else dowild f flags (Some pc0) p1 t1
     else if pc =? cSTAR then
-      let p2 := drop_stars p1 in
-      let double := match p1 with c :: _ => c =? cSTAR | [] => false end in
-      let boundary :=
-          match prev with None => true | Some c => c =? cSLASH end &&
-          match p2 with
-          | [] => true
-          | c :: r => (c =? cSLASH) ||
-                      ((c =? cBSL) && match r with d :: _ => d =? cSLASH | [] => false end)
-          end in
-      (* the "<star><star>/" shortcut: try to match the rest after the slash against
-         the whole remaining text (WNoMatch here = shortcut not taken) *)
-      let shortcut : wm :=
-          if double && pn && boundary then
-            match p2 with
-            | c :: p3 => if c =? cSLASH then dowild f flags None p3 t else WNoMatch
-            | [] => WNoMatch
-            end
-          else WNoMatch in
-      match shortcut with
-      | WMatch => WMatch
-      | WFuel => WFuel
-      | _ =>
-        let match_slash := if double then negb pn || boundary else negb pn in
-        match p2 with
-        | [] => if negb match_slash && has_slash t then WAbortStarStar else WMatch
-        | q0 :: q1 =>
-          if negb match_slash && (q0 =? cSLASH) then
-            match after_slash t with
-            | None => WAbortAll
-            | Some t' => dowild f flags (Some cSLASH) q1 t'
-            end
-          else
-            let lit := negb (is_glob_special q0) in
-            let pcf := fold cf q0 in
-            let abortv := if match_slash then WAbortAll else WAbortStarStar in
-            (fix sl (skipped : bool) (t : bytes) {struct t} : wm :=
-               match t with
-               | [] => if skipped then abortv else WAbortAll
-               | c :: t' =>
-                 let try (tch : N) : wm :=
-                     let m := dowild f flags None p2 t in
-                     if negb (wm_eqb m WNoMatch) then
-                       if negb match_slash || negb (wm_eqb m WAbortStarStar) then m else sl false t'
-                     else if negb match_slash && (tch =? cSLASH) then WAbortStarStar
-                     else sl false t' in
-                 if lit then
-                   if negb match_slash && (c =? cSLASH) then abortv
-                   else if fold cf c =? pcf then try (fold cf c)
-                   else sl true t'
-                 else try c
-               end) false t
-        end
-      end
+      star_case (dowild f flags) pn cf WAbortStarStar WAbortAll
+                (fun ms : bool => if ms then WAbortAll else WAbortStarStar) prev p1 t
     else if pc =? cLB then
       match bracket cf tc p1 with
       | (CAbort, _) => WAbortAll
